@@ -1,11 +1,14 @@
 /-
 `@counter-style` descriptors: mirror of the validators of `weasyprint/css/validation/descriptors.py`
-  `system`, `negative`, `prefix_suffix`, `range` (with `comma_separated_list`), `pad`, `fallback`,
-  `symbols`, `additive_symbols`
-on abstract tokens, of `parse_counter_style_name` (`css/counters.py`) and of the rule-level checks of
-`preprocess_stylesheet` (`css/__init__.py`, "needs at least one / two symbols").
+  `system`, `negative`, `prefix_suffix`, `range` + `range_list` (with `comma_separated_list`), `pad`,
+  `fallback`, `symbols`, `additive_symbols`
+on abstract tokens, of the loop of `preprocess_descriptors` (empty values rejected before the validator is
+called, d71ddd0; unknown names and invalid values ignored), of `parse_counter_style_name`
+(`css/counters.py`) and of the rule-level checks of `preprocess_stylesheet` (`css/__init__.py`, "needs at
+least one / two symbols").
 `none` is Python's `None` ("invalid value": the declaration is ignored); Python failure points are
-explicit (`system` on an empty value: `tokens[0]` → IndexError).
+explicit (`system` called directly on an empty value: `tokens[0]` → IndexError; unreachable through
+`preprocess_descriptors`, `C15.preprocess_descriptors_total`).
 No Mathlib, no Std: linked into the compiled driver.
 -/
 import WpModel.Model.Counters
@@ -104,10 +107,14 @@ def boundLe : Bound → Bound → Bool
   | .fin x, .fin y => decide (x ≤ y)
   | _, _ => false
 
-/-- One part of `range`: `'auto'`, or a `(min, max)` pair with `min <= max`. -/
+/-- `get_single_keyword(tokens)`: the lower-cased name of a one-element list holding an identifier. -/
+def singleKeyword? : List Tok → Option String
+  | [t] => keyword? t
+  | _ => none
+
+/-- One part of `range_list`: a `(min, max)` pair with `min <= max` (since 5be1d36 `auto` is not a part). -/
 def rangePart (tokens : List Tok) : Option RangeEntry :=
   match tokens with
-  | [t] => if keyword? t = some "auto" then some .autoKw else none
   | [a, b] =>
     match loBound a, hiBound b with
     | some lo, some hi => if boundLe lo hi then some (.pair lo hi) else none
@@ -120,9 +127,14 @@ def allParts {α} (f : List Tok → Option α) : List (List Tok) → Option (Lis
     | none => none
     | some x => (allParts f rest).map (x :: ·)
 
-/-- `range(tokens)` (`comma_separated_list`). -/
+/-- `range_list(tokens)` (`comma_separated_list`). -/
+def rangeList (tokens : List Tok) : Option (List RangeEntry) :=
+  allParts rangePart (splitOnComma tokens [])
+
+/-- `range(tokens)`: the keyword `auto` alone is the string `'auto'`, anything else a list of ranges. -/
 def range (tokens : List Tok) : Option RangeDesc :=
-  (allParts rangePart (splitOnComma tokens [])).map .entries
+  if singleKeyword? tokens = some "auto" then some .auto
+  else (rangeList tokens).map .entries
 
 /-- The loop of `pad`: `values = [None, None]`. -/
 def padLoop : List Tok → Option Nat → Option Sym → Option Nat × Option Sym
@@ -189,6 +201,39 @@ def applyDecl (d : Desc) : Decl → Desc
   | .fallback v => { d with fallback := some v }
   | .symbols v => { d with symbols := some v }
   | .additive v => { d with additive := some v }
+
+/-- The validator `DESCRIPTORS['counter-style'][name]` applied to `tokens`: outer `none` = the name is not a
+`@counter-style` descriptor (`speak-as`, …), `some (.ok none)` = invalid value. -/
+def validate (name : String) (toks : List Tok) : Option (Except DErr (Option Decl)) :=
+  match name with
+  | "system" => some ((system toks).map (·.map .system))
+  | "negative" => some (.ok ((negative toks).map .negative))
+  | "prefix" => some (.ok ((prefixSuffix toks).map .pfx))
+  | "suffix" => some (.ok ((prefixSuffix toks).map .sfx))
+  | "range" => some (.ok ((range toks).map .range))
+  | "pad" => some (.ok ((pad toks).map .pad))
+  | "fallback" => some (.ok ((fallback toks).map .fallback))
+  | "symbols" => some (.ok ((symbols toks).map .symbols))
+  | "additive-symbols" => some (.ok ((additiveSymbols toks).map .additive))
+  | _ => none
+
+/-- One turn of the loop of `preprocess_descriptors` (`validation/descriptors.py`) on a declaration
+`name: tokens` (white space removed): `if not tokens: raise InvalidValues` (since d71ddd0), unknown names
+and invalid values are ignored (`none`), an exception of the validator is not caught. -/
+def preprocessOne (name : String) (toks : List Tok) : Except DErr (Option Decl) :=
+  if toks.isEmpty then .ok none
+  else match validate name toks with
+    | none => .ok none
+    | some r => r
+
+/-- `preprocess_descriptors('counter-style', …)`: the surviving declarations in source order. -/
+def preprocessDescriptors : List (String × List Tok) → List Decl → Except DErr (List Decl)
+  | [], acc => .ok acc
+  | (n, toks) :: rest, acc =>
+    match preprocessOne n toks with
+    | .error e => .error e
+    | .ok none => preprocessDescriptors rest acc
+    | .ok (some d) => preprocessDescriptors rest (acc ++ [d])
 
 /-- The rule-level check of `preprocess_stylesheet`: is the rule registered? -/
 def ruleAccepted (d : Desc) : Bool :=
